@@ -745,8 +745,18 @@ asn_double2REAL(REAL_t *st, double dbl_value) {
 		}
     }
 
-	/* Remove parts of the exponent, leave mantissa and explicit 1. */
-	dscr[0] = 0x10 | (dscr[0] & 0x0f);
+	if((dscr[0] & 0xf0) == 0
+	&& ((float_big_endian ? *(const uint8_t *)&dbl_value
+		: ((const uint8_t *)&dbl_value)[sizeof(dbl_value) - 1]) & 0x7f) == 0) {
+		/*
+		 * Subnormal number: the biased exponent is zero, there is no
+		 * implicit leading 1 and the exponent is that of DBL_MIN.
+		 */
+		expval = -1022;
+	} else {
+		/* Remove parts of the exponent, leave mantissa and explicit 1. */
+		dscr[0] = 0x10 | (dscr[0] & 0x0f);
+	}
 
 	/* Adjust exponent in a very unobvious way */
 	expval -= 8 * ((mstop - dscr) + 1) - 4;
